@@ -182,6 +182,25 @@ pub struct Scn {
     pub pw: Option<Vec<u8>>,
     pub stream: bool,
     pub aes: bool,
+    /// an entry's data, checksum or authentication code was damaged on purpose: whether (and where) the read fails must
+    /// not depend on the schedule either; error texts are not compared
+    pub damaged: bool,
+}
+
+/// For damaged archives: keep whether each read ended in an error, drop the error text.
+fn norm(mut o: RObs, damaged: bool) -> RObs {
+    if damaged {
+        for e in o.entries.iter_mut() {
+            if e.content.is_err() {
+                e.content = Err("<error>".into());
+                e.post_eof_zero = false;
+            }
+        }
+        if o.open.is_err() {
+            o.open = Err("<error>".into());
+        }
+    }
+    o
 }
 
 pub fn contents(seed: u64, big: usize) -> (Vec<u8>, Vec<u8>) {
@@ -213,10 +232,10 @@ pub fn scenarios(seed: u64, big: usize) -> Vec<Scn> {
         assert!(r.iter().all(|x| x.is_ok()));
         bytes
     };
-    v.push(Scn { label: "stored+deflated".into(), bytes: w(0, 8, None), pw: None, stream: true, aes: false });
-    v.push(Scn { label: "bzip2+zstd".into(), bytes: w(12, 93, None), pw: None, stream: true, aes: false });
-    v.push(Scn { label: "zipcrypto-stored+deflated".into(), bytes: w(0, 8, Some(PW)), pw: Some(PW.to_vec()), stream: false, aes: false });
-    v.push(Scn { label: "zipcrypto-zstd+bzip2".into(), bytes: w(93, 12, Some(PW)), pw: Some(PW.to_vec()), stream: false, aes: false });
+    v.push(Scn { label: "stored+deflated".into(), bytes: w(0, 8, None), pw: None, stream: true, aes: false, damaged: false });
+    v.push(Scn { label: "bzip2+zstd".into(), bytes: w(12, 93, None), pw: None, stream: true, aes: false, damaged: false });
+    v.push(Scn { label: "zipcrypto-stored+deflated".into(), bytes: w(0, 8, Some(PW)), pw: Some(PW.to_vec()), stream: false, aes: false, damaged: false });
+    v.push(Scn { label: "zipcrypto-zstd+bzip2".into(), bytes: w(93, 12, Some(PW)), pw: Some(PW.to_vec()), stream: false, aes: false, damaged: false });
     for (ver, m1, m2) in [(1u16, 0u16, 8u16), (2, 93, 0)] {
         let spec = Spec {
             entries: vec![
@@ -226,7 +245,7 @@ pub fn scenarios(seed: u64, big: usize) -> Vec<Scn> {
             comment: b"aes".to_vec(),
             ..Default::default()
         };
-        v.push(Scn { label: format!("ae{ver}-m{m1}+m{m2}"), bytes: build(&spec).0, pw: Some(PW.to_vec()), stream: false, aes: true });
+        v.push(Scn { label: format!("ae{ver}-m{m1}+m{m2}"), bytes: build(&spec).0, pw: Some(PW.to_vec()), stream: false, aes: true, damaged: false });
     }
     // metadata-heavy: prefix junk, forced ZIP64 end records and per-entry ZIP64 fields, comments
     let spec = Spec {
@@ -239,7 +258,7 @@ pub fn scenarios(seed: u64, big: usize) -> Vec<Scn> {
         force_zip64_eocd: true,
         ..Default::default()
     };
-    v.push(Scn { label: "builder-prefix-zip64".into(), bytes: build(&spec).0, pw: None, stream: false, aes: false });
+    v.push(Scn { label: "builder-prefix-zip64".into(), bytes: build(&spec).0, pw: None, stream: false, aes: false, damaged: false });
     v
 }
 
@@ -313,8 +332,9 @@ fn compare(s: &Scn, stream: bool, frag: &Frag, bufsize: usize, zero: bool, base:
             st.viol(format!("panic/{route}/{}", panic_site(&p)), format!("{}: reader panicked under {}: {p}", s.label, frag.describe()), case(), order)
         }
         Ok(o) => {
+            let o = norm(o, s.damaged);
             if o == *base {
-                st.class(&format!("same-as-unfragmented/{}", frag.class()));
+                st.class(&format!("same-as-unfragmented/{}{}", frag.class(), if s.damaged { "/damaged" } else { "" }));
                 return;
             }
             st.class("DIFFERS");
@@ -407,6 +427,35 @@ fn run_writer(calls: &[Call], sources: &[Vec<u8>], p: PlanRef) -> (Vec<Res>, Vec
     (out, sink.snapshot())
 }
 
+/// One bit flipped in the middle / last byte of each entry's stored data, in the recorded CRC (plain, ZipCrypto), in the
+/// authentication code and the byte before it (AES).
+pub fn damaged_scenarios(scns: &[Scn]) -> Vec<Scn> {
+    use crate::reference::zipparse;
+    let mut dscn: Vec<Scn> = vec![];
+    for s in scns {
+        let parsed = match zipparse::parse(&s.bytes, &zipparse::Opts::lenient()) {
+            Ok(p) => p,
+            Err(_) => continue,
+        };
+        for (ei, en) in parsed.entries.iter().enumerate() {
+            let (d0, d1) = (en.data_pos as usize, (en.data_pos + en.csize) as usize);
+            let mut spots: Vec<(String, usize)> = vec![(format!("data-middle-e{ei}"), (d0 + d1) / 2), (format!("data-last-e{ei}"), d1 - 1)];
+            if !s.aes {
+                spots.push((format!("central-crc-e{ei}"), en.central_pos as usize + 16));
+            } else {
+                spots.push((format!("mac-first-e{ei}"), d1 - 10));
+                spots.push((format!("data-before-mac-e{ei}"), d1 - 11));
+            }
+            for (what, pos) in spots {
+                let mut b = s.bytes.clone();
+                b[pos] ^= 0x04;
+                dscn.push(Scn { label: format!("{}/damaged:{what}", s.label), bytes: b, pw: s.pw.clone(), stream: false, aes: s.aes, damaged: true });
+            }
+        }
+    }
+    dscn
+}
+
 fn replay(case: &Value, st: &mut Stats, seed: u64) {
     if case.get("writer").is_some() {
         let progs = writer_programs(seed);
@@ -415,6 +464,9 @@ fn replay(case: &Value, st: &mut Stats, seed: u64) {
         if let Some((_, calls, _)) = progs.iter().find(|p| p.0 == label) {
             let base = run_writer(calls, &src, plan());
             let p = plan();
+            if let Some(c) = case["source_chunk"].as_u64() {
+                SRC_CHUNK.with(|x| x.set(c as usize));
+            }
             if let Some(c) = case["chunk"].as_u64() {
                 p.borrow_mut().chunk = Some(c as usize);
             }
@@ -424,6 +476,7 @@ fn replay(case: &Value, st: &mut Stats, seed: u64) {
                 p.borrow_mut().devs.insert(k, Dev::Interrupted);
             }
             let got = run_writer(calls, &src, p);
+            SRC_CHUNK.with(|x| x.set(0));
             if got != base {
                 st.viol("writer/short-writes-change-output", "sink bytes or results differ from the run without short writes", case.clone(), 0);
             }
@@ -431,8 +484,13 @@ fn replay(case: &Value, st: &mut Stats, seed: u64) {
         return;
     }
     let big = case["big"].as_u64().unwrap_or(700) as usize;
-    let scns = scenarios(seed, big);
-    let Some(s) = scns.iter().find(|s| s.label == case["scenario"].as_str().unwrap_or("")) else { return };
+    let mut scns = scenarios(seed, big);
+    let damaged = damaged_scenarios(&scns);
+    scns.extend(damaged);
+    let Some(s) = scns.iter().find(|s| s.label == case["scenario"].as_str().unwrap_or("")) else {
+        crate::diag!("replay: no scenario named {}", case["scenario"]);
+        return;
+    };
     if case["route"] == "stream-partial" {
         let k = case["take"].as_u64().unwrap_or(0) as usize;
         let p: PlanRef = plan();
@@ -464,6 +522,7 @@ fn replay(case: &Value, st: &mut Stats, seed: u64) {
     };
     let base = if stream { run_stream(std::io::Cursor::new(&s.bytes[..]), 0, false) } else { run_seekable(std::io::Cursor::new(&s.bytes[..]), s.pw.as_deref(), 0, false) };
     if let Ok(base) = base {
+        let base = norm(base, s.damaged);
         compare(s, stream, &frag, case["bufsize"].as_u64().unwrap_or(0) as usize, case["empty_reads"].as_bool().unwrap_or(false), &base, st, 0);
     }
 }
@@ -483,11 +542,11 @@ pub fn run(args: &Args) -> i32 {
     let cbufs_cut = [1usize, 7, 0];
     ctx.rule = format!(
         "E-DEV over fragmentation schedules, differential against the 0-deviation run (which is itself required to return the written content). Reader: 7 archives \
-         (stored+deflated, bzip2+zstd, ZipCrypto x2, AE-1, AE-2, prefixed+ZIP64), entries of 40 and {big} bytes; seekable route for all, streaming route for the two plain ones. \
+         (stored+deflated, bzip2+zstd, ZipCrypto x2, AE-1, AE-2, prefixed+ZIP64), entries of 40 and {big} bytes; seekable route for all, streaming route for the two plain ones; plus ~45 DAMAGED variants of them (one bit in an entry's data, recorded CRC or authentication code) whose reads must end in an error under every schedule, exactly as without fragmentation. \
          Deviations: every uniform chunk limit in 1..=17 and {{4095,4096,4097}} and std BufReader capacities {{1,7,64}} x caller buffers {{1,2,3,7,64,4096,read_to_end}} x empty reads {{no,yes}}; \
          a retryable ErrorKind::Interrupted at every read call (plain and with 5-byte underlying reads; callers retry as std does), and at every write call on the writer side; ONE cut at EVERY byte position of every archive x caller buffers {{1,7,read_to_end}}; all PAIRS of cut positions (bound 2) on a 40+60-byte archive. After EOF three more reads must return 0. Streaming route also with every entry released after 0/1/10/41 bytes (the reader skips the rest) under 9 chunk limits, 3 BufReader capacities and one cut at every (quick: every 5th) position. \
          Writer: 12 programs; sink accepting at most c bytes per write for the same c set; one short write at every write-call index with 1, n/2, n-1 bytes accepted: sink bytes must be identical; \
-         caller splitting a 700-byte content at every position and in uniform pieces 1..17: archive must decode to the same entries. distinct_nontrivial = distinct (scenario, route, schedule, caller pattern) tuples (counted; never repeated)."
+         raw-copy sources delivering 1..17, 33, 100, 1000, 4095..4097, 65535, 65536 bytes per read: sink bytes identical; caller splitting a 700-byte content at every position and in uniform pieces 1..17: archive must decode to the same entries. distinct_nontrivial = distinct (scenario, route, schedule, caller pattern) tuples (counted; never repeated)."
     );
     ctx.assume("the 0-deviation execution is a valid baseline: it is checked against the known written content before use");
     ctx.uncovered("random schedules (sampling); more than 2 independent cuts; archives other than the listed scenarios");
@@ -574,6 +633,40 @@ pub fn run(args: &Args) -> i32 {
             }
         }
     }
+    // damaged archives: one bit flipped in an entry's data / ciphertext / authentication code / recorded CRC. The unfragmented
+    // read ends in an error; under every schedule and caller pattern it must end in an error too (never a completed read)
+    let mut all_scns = scns.clone();
+    {
+        let dscn = damaged_scenarios(&scns);
+        let mut vacuous = 0;
+        for d in dscn {
+            let b = run_seekable(std::io::Cursor::new(&d.bytes[..]), d.pw.as_deref(), 0, false).ok().map(|o| norm(o, true));
+            // damage the decoder does not notice (and that is not covered by a checksum: none here) would make the scenario vacuous
+            if b.as_ref().map_or(true, |o| o.open.is_ok() && o.entries.iter().all(|e| e.content.is_ok())) {
+                vacuous += 1;
+                continue;
+            }
+            let si = all_scns.len();
+            all_scns.push(d);
+            bases.push((b, None));
+            let n = all_scns[si].bytes.len() as u64;
+            items.push(Item { si, stream: false, frag: Frag::Cuts(vec![]), cbufs: cbufs_all.to_vec(), zeros: vec![false, true] });
+            for &c in &chunks {
+                items.push(Item { si, stream: false, frag: Frag::Chunk(c), cbufs: cbufs_all.to_vec(), zeros: vec![false] });
+            }
+            for c in [1usize, 7, 64] {
+                items.push(Item { si, stream: false, frag: Frag::BufReader(c), cbufs: cbufs_all.to_vec(), zeros: vec![false] });
+            }
+            let step = if thorough { 1 } else { 3 };
+            let mut p = 1u64;
+            while p < n {
+                items.push(Item { si, stream: false, frag: Frag::Cuts(vec![p]), cbufs: vec![3, 64, 0], zeros: vec![false] });
+                p += step;
+            }
+        }
+        ctx.bound("damaged_scenarios", json!({"count": all_scns.len() - scns.len(), "unnoticed_damage_skipped": vacuous, "damage": "one bit in the middle / last byte of each entry's stored data, in the recorded CRC (plain, ZipCrypto), in the authentication code and the byte before it (AES)",
+            "schedules": "every uniform chunk, BufReader capacity and caller buffer; one cut at every (quick: every 3rd) position x caller buffers {3, 64, read_to_end}"}));
+    }
     // pairs of cuts on a small archive
     let small = {
         let mut r = crate::util::Rng(seed ^ 0x99);
@@ -586,8 +679,7 @@ pub fn run(args: &Args) -> i32 {
         ];
         exec(&calls, &[]).1
     };
-    let small_scn = Scn { label: "small-stored+deflated".into(), bytes: small.clone(), pw: None, stream: true, aes: false };
-    let mut all_scns = scns.clone();
+    let small_scn = Scn { label: "small-stored+deflated".into(), bytes: small.clone(), pw: None, stream: true, aes: false, damaged: false };
     all_scns.push(small_scn);
     let small_i = all_scns.len() - 1;
     let sb = (run_seekable(std::io::Cursor::new(&small[..]), None, 0, false).ok(), run_stream(std::io::Cursor::new(&small[..]), 0, false).ok());
@@ -766,6 +858,42 @@ pub fn run(args: &Args) -> i32 {
         }
     });
     ctx.stats.merge(s);
+
+    // raw copies whose SOURCE archive hands out its bytes in pieces: the produced archive must be byte-identical
+    {
+        let mut ritems: Vec<(usize, usize)> = vec![];
+        for (pi, (_, calls, _)) in progs.iter().enumerate() {
+            if calls.iter().any(|c| matches!(c, Call::RawCopy { .. })) {
+                for &c in &chunks {
+                    ritems.push((pi, c));
+                }
+                for c in [33usize, 100, 1000, 65535, 65536] {
+                    ritems.push((pi, c));
+                }
+            }
+        }
+        counted += ritems.len() as u64;
+        let ritems_r = &ritems;
+        let s = par_for(ritems.len() as u64, 4, |t, st| {
+            let (pi, c) = ritems_r[t as usize];
+            let (label, calls, _) = &progs_ref[pi];
+            st.evals += 1;
+            SRC_CHUNK.with(|x| x.set(c));
+            let p = plan();
+            p.borrow_mut().record_kinds = false;
+            let got = run_writer(calls, src_ref, p);
+            SRC_CHUNK.with(|x| x.set(0));
+            let case = json!({"writer": label, "source_chunk": c});
+            if got != wbase_ref[pi] {
+                st.class("WRITER-OUTPUT-DIFFERS");
+                let what = if got.0 != wbase_ref[pi].0 { format!("call results differ: {:?}", got.0.iter().find(|r| !r.is_ok()).map(|r| r.show())) } else { "sink bytes differ".to_string() };
+                st.viol(format!("writer/source-short-reads-change-output/{label}"), format!("{label}: raw-copy sources delivering at most {c} bytes per read: {what}"), case, (4 << 50) + t);
+            } else {
+                st.class("writer-same/chunked-raw-copy-source");
+            }
+        });
+        ctx.stats.merge(s);
+    }
 
     // caller-side splits of the content
     let (_, content) = contents(seed, 700);
